@@ -175,9 +175,8 @@ func doPosition(positionCommand string) {
 		}
 	}
 	//clear killer moves
-	for _, killers := range killerMoves {
-		killers[0] = Move{}
-		killers[1] = Move{}
+	for i := range killerMoves {
+		killerMoves[i] = [2]Move{}
 	}
 }
 
